@@ -138,7 +138,7 @@ class Check:
             outs.append((inp, out, len(part)))
             e = {"VERIF_OBS": inp, "VERIF_OUT": out, "VERIF_TIER": self.tier}
             e.update(env or {})
-            jobs.append(dict(module=module, cfg="Gen.cfg", env=e, timeout=timeout, heap="3g"))
+            jobs.append(dict(module=module, cfg=(module + ".cfg" if os.path.exists(os.path.join(tlc.SPEC, module + ".cfg")) else "Gen.cfg"), env=e, timeout=timeout, heap="3g"))
         tlc.run_many(jobs, parallel=NPROC)
         verdicts = []
         for inp, out, n in outs:
